@@ -108,3 +108,11 @@ REQUIRED_PROBES = {
             "patience_0", "multi_val_batches", "multi_train_batches", "vi_steps_0", "nan_in_losses", "inf_in_losses", "ran_to_max"],
 }
 OPTIONAL_FAULTS = {"C15": ["loss_tie_at_min", "degenerate_zero_epochs_or_steps"]}
+
+# fault kinds each property's worlds can schedule (evidence lists only these)
+ENABLED_FAULTS = {
+    "C09": ["opt_teleport", "grad_huge", "opt_signflip", "degenerate_knobs"],
+    "C11": ["opt_teleport", "grad_huge", "opt_signflip", "degenerate_knobs"],
+    "C12": ["opt_teleport", "grad_huge", "opt_signflip", "opt_zero", "grad_nan", "grad_inf", "degenerate_knobs"],
+    "C18": ["data_fault_row"],
+}
